@@ -18,7 +18,7 @@ Record codec_laws (X : ext) : Prop := {
   law_time : forall t, wf_time t = true -> is_zero t = false ->
     x_time_parse X (x_text X (x_time_fmt X t)) = Some (to_second t);
   (** encoding/xml leaves decimal digits alone *)
-  law_digits : forall n, x_text X (dec n) = dec n
+  law_digits : forall z, x_text X (dec_z z) = dec_z z
 }.
 
 (** * Reflexivity of the comparison functions *)
@@ -27,7 +27,7 @@ Proof. unfold instant_eqb. now rewrite Z.eqb_refl, N.eqb_refl. Qed.
 
 Lemma info_eqb_refl i : info_eqb i i = true.
 Proof.
-  unfold info_eqb. now rewrite !String.eqb_refl, N.eqb_refl, instant_eqb_refl, Bool.eqb_reflx.
+  unfold info_eqb. now rewrite !String.eqb_refl, Z.eqb_refl, instant_eqb_refl, Bool.eqb_reflx.
 Qed.
 
 Lemma infos_eqb_refl l : infos_eqb l l = true.
@@ -85,20 +85,150 @@ Proof.
   - destruct (N.eqb (n / 10) 0); [discriminate|]. apply IH.
 Qed.
 
-Lemma parse_size_dec n : (n < 9223372036854775808)%N -> parse_size (dec n) = Some n.
+(** every byte [dec] writes is a decimal digit *)
+Definition is_digit_b (c : ascii) : Prop := (48 <= N_of_ascii c <= 57)%N.
+Fixpoint all_chars (P : ascii -> Prop) (s : string) : Prop :=
+  match s with EmptyString => True | String c r => P c /\ all_chars P r end.
+
+Lemma radix_digits fuel : forall n acc, all_chars is_digit_b acc -> all_chars is_digit_b (radix_aux 10 fuel n acc).
 Proof.
-  intros H. unfold parse_size, dec.
-  destruct (radix_aux 10 (S (N.to_nat (N.size n))) n "") eqn:R.
+  induction fuel as [|f IH]; intros n acc H; cbn [radix_aux]; [exact H|].
+  assert (Hm : (n mod 10 < 10)%N) by (apply N.mod_lt; lia).
+  assert (D : all_chars is_digit_b (String (digit_char (n mod 10)) acc)).
+  { split; [|exact H]. unfold is_digit_b. rewrite (digit_char_code _ Hm). revert Hm. generalize (n mod 10)%N. intros; lia. }
+  destruct (N.eqb (n / 10) 0); [exact D|apply IH, D].
+Qed.
+
+Lemma dec_digits n : all_chars is_digit_b (dec n).
+Proof. unfold dec. apply radix_digits. exact I. Qed.
+
+(** a decimal number has no white space to trim *)
+Definition plain_b (c : ascii) : Prop := (45 <= N_of_ascii c <= 57)%N.
+
+Lemma all_chars_impl (P Q : ascii -> Prop) s : (forall c, P c -> Q c) -> all_chars P s -> all_chars Q s.
+Proof. intros H. induction s as [|c r IH]; cbn; [auto|]. intros [A B]. split; auto. Qed.
+
+Ltac nat_tests :=
+  repeat match goal with
+         | |- context [N.leb ?a ?b] => destruct (N.leb_spec a b); try lia
+         | |- context [N.eqb ?a ?b] => destruct (N.eqb_spec a b); try lia
+         end.
+
+Lemma space_prefix_plain c r : plain_b c -> space_prefix (String c r) = None.
+Proof.
+  unfold plain_b. intros H. cbn [space_prefix]. set (k := N_of_ascii c) in *. clearbody k.
+  nat_tests; cbn [andb orb]; destruct r as [|b [|d r2]]; reflexivity.
+Qed.
+
+Lemma space_suffix_plain c r : plain_b c -> space_suffix_rev (String c r) = None.
+Proof.
+  unfold plain_b. intros H. cbn [space_suffix_rev]. set (k := N_of_ascii c) in *. clearbody k.
+  nat_tests; cbn [andb orb]; destruct r as [|b [|d r2]]; try reflexivity;
+    rewrite ?andb_false_r; cbn [andb orb]; rewrite ?andb_false_r; try reflexivity.
+Qed.
+
+Lemma trim_with_none f fuel s : f s = None -> trim_with f fuel s = s.
+Proof. intros H. destruct fuel; cbn; [reflexivity|]. now rewrite H. Qed.
+
+Lemma srev_aux_spec s : forall acc, srev_aux s acc = (srev_aux s "" ++ acc)%string.
+Proof.
+  induction s as [|a r IH]; intros acc; cbn [srev_aux]; [reflexivity|].
+  rewrite (IH (String a acc)), (IH (String a "")). clear IH.
+  induction (srev_aux r "") as [|x t IHt]; cbn; [reflexivity|]. now rewrite IHt.
+Qed.
+
+Lemma str_app_nil (a : string) : (a ++ "" = a)%string.
+Proof. induction a as [|x a IH]; cbn; [reflexivity|]. now rewrite IH. Qed.
+
+Lemma srev_app a b : srev (a ++ b) = (srev b ++ srev a)%string.
+Proof.
+  unfold srev. revert b. induction a as [|x a IH]; intros b; cbn [append srev_aux].
+  - now rewrite str_app_nil.
+  - rewrite (srev_aux_spec (a ++ b)), (srev_aux_spec a (String x "")), IH.
+    clear IH. induction (srev_aux b "") as [|y t IHt]; cbn; [reflexivity|]. now rewrite IHt.
+Qed.
+
+Lemma srev_involutive s : srev (srev s) = s.
+Proof.
+  induction s as [|a r IH]; [reflexivity|].
+  change (String a r) with (String a "" ++ r)%string at 1. rewrite srev_app, srev_app, IH. reflexivity.
+Qed.
+
+Lemma all_chars_app P a b : all_chars P a -> all_chars P b -> all_chars P (a ++ b).
+Proof. induction a as [|x a IH]; cbn; [auto|]. intros [A B] C. split; auto. Qed.
+
+Lemma all_chars_srev P s : all_chars P s -> all_chars P (srev s).
+Proof.
+  induction s as [|a r IH]; [auto|]. intros [A B].
+  change (String a r) with (String a "" ++ r)%string. rewrite srev_app.
+  apply all_chars_app; [auto|]. cbn. auto.
+Qed.
+
+Lemma trim_space_plain s : all_chars plain_b s -> trim_space s = s.
+Proof.
+  intros H. unfold trim_space.
+  assert (L : trim_with space_prefix (String.length s) s = s).
+  { apply trim_with_none. destruct s as [|c r]; [reflexivity|]. apply space_prefix_plain, H. }
+  rewrite L.
+  assert (R : trim_with space_suffix_rev (String.length s) (srev s) = srev s).
+  { apply trim_with_none. pose proof (all_chars_srev _ _ H) as Hr.
+    destruct (srev s) as [|c r]; [reflexivity|]. apply space_suffix_plain, Hr. }
+  rewrite R. apply srev_involutive.
+Qed.
+
+Lemma dec_z_plain z : all_chars plain_b (dec_z z).
+Proof.
+  unfold dec_z. assert (D : forall n, all_chars plain_b (dec n)).
+  { intros n. eapply all_chars_impl; [|apply dec_digits]. unfold is_digit_b, plain_b. intros; lia. }
+  destruct (Z.ltb z 0); [split; [unfold plain_b; cbn; lia|apply D]|apply D].
+Qed.
+
+Lemma parse_digits_dec n : parse_digits (dec n) 0 = Some n.
+Proof.
+  unfold dec. rewrite pd_radix; [reflexivity|].
+  rewrite Nat2N.inj_succ, N2Nat.id.
+  destruct n as [|p]; [cbn; lia|].
+  pose proof (N.size_gt (N.pos p)) as G.
+  eapply N.lt_le_trans; [exact G|].
+  transitivity (10 ^ N.size (N.pos p))%N.
+  - apply N.pow_le_mono_l; lia.
+  - apply N.pow_le_mono_r; lia.
+Qed.
+
+Lemma dec_shape n : exists c r, dec n = String c r /\ is_digit_b c.
+Proof.
+  pose proof (dec_digits n) as D. unfold dec in *.
+  destruct (radix_aux 10 (S (N.to_nat (N.size n))) n "") as [|c r] eqn:R.
   - exfalso. eapply radix_nonempty; eauto.
-  - rewrite <- R. rewrite pd_radix.
-    + cbn [parse_digits]. apply N.ltb_lt in H. now rewrite H.
-    + rewrite Nat2N.inj_succ, N2Nat.id.
-      destruct n as [|p]; [cbn; lia|].
-      pose proof (N.size_gt (N.pos p)) as G.
-      eapply N.lt_le_trans; [exact G|].
-      transitivity (10 ^ N.size (N.pos p))%N.
-      * apply N.pow_le_mono_l; lia.
-      * apply N.pow_le_mono_r; lia.
+  - exists c, r. split; [reflexivity|apply D].
+Qed.
+
+Lemma parse_int64_dec_z z : (-9223372036854775808 <= z < 9223372036854775808)%Z ->
+  parse_int64 (dec_z z) = Some z.
+Proof.
+  intros H. unfold dec_z. destruct (Z.ltb_spec z 0) as [Hn|Hp].
+  - unfold parse_int64. change (Ascii.eqb "-" "+") with false. change (Ascii.eqb "-" "-") with true. cbv iota.
+    destruct (dec_shape (Z.to_N (- z))) as (c & r & E & _). rewrite E, <- E, parse_digits_dec.
+    replace (N.leb (Z.to_N (- z)) 9223372036854775808) with true by (symmetry; apply N.leb_le; lia).
+    f_equal. lia.
+  - destruct (dec_shape (Z.to_N z)) as (c & r & E & Dg). unfold parse_int64. rewrite E.
+    assert (Ascii.eqb c "+" = false) as ->.
+    { apply Ascii.eqb_neq. intros ->. unfold is_digit_b in Dg. cbn in Dg. lia. }
+    assert (Ascii.eqb c "-" = false) as ->.
+    { apply Ascii.eqb_neq. intros ->. unfold is_digit_b in Dg. cbn in Dg. lia. }
+    rewrite <- E, parse_digits_dec.
+    replace (N.ltb (Z.to_N z) 9223372036854775808) with true by (symmetry; apply N.ltb_lt; lia).
+    f_equal. lia.
+Qed.
+
+Lemma parse_size_dec z : (-9223372036854775808 <= z < 9223372036854775808)%Z ->
+  parse_size (dec_z z) = Some z.
+Proof.
+  intros H. unfold parse_size.
+  assert (dec_z z <> EmptyString) as Ne.
+  { unfold dec_z. destruct (Z.ltb z 0); [discriminate|]. destruct (dec_shape (Z.to_N z)) as (c & r & E & _). now rewrite E. }
+  destruct (dec_z z) eqn:E; [congruence|]. rewrite <- E.
+  rewrite (trim_space_plain _ (dec_z_plain z)). now apply parse_int64_dec_z.
 Qed.
 
 (** * Status classes *)
@@ -147,8 +277,9 @@ Section RoundTrip.
     file_info_from_response X (wire_of fi) = Ok (view fi).
   Proof.
     intros W. unfold wf_info in W.
-    apply andb_true_iff in W as [W Wm]. apply andb_true_iff in W as [W Ws].
-    apply andb_true_iff in W as [_ Wt]. apply N.ltb_lt in Ws.
+    apply andb_true_iff in W as [W Wm]. apply andb_true_iff in W as [W Ws2]. apply andb_true_iff in W as [W Ws1].
+    apply andb_true_iff in W as [_ Wt]. apply Z.ltb_lt in Ws2. apply Z.leb_le in Ws1.
+    assert (Ws : (-9223372036854775808 <= i_size fi < 9223372036854775808)%Z) by lia.
     unfold file_info_from_response, wire_of, prop_find_file, fi_props, view.
     cbn [wr_propstats dr_paths dr_status dr_propstats].
     destruct (i_dir fi) eqn:D.
@@ -172,7 +303,7 @@ Section RoundTrip.
   Lemma wf_info_path fi : wf_info X fi = true -> wf_path (i_path fi) = true.
   Proof.
     unfold wf_info. intros W. apply andb_true_iff in W as [W _]. apply andb_true_iff in W as [W _].
-    now apply andb_true_iff in W as [W _].
+    apply andb_true_iff in W as [W _]. now apply andb_true_iff in W as [W _].
   Qed.
 
   Lemma decode_ms_map l : forallb (wf_info X) l = true ->
@@ -454,7 +585,7 @@ Section Master.
         * rewrite (open_collection fs ep n fi S D). reflexivity.
         * destruct (fs_open fs (resolve_href ep n)) as [b|e] eqn:O.
           -- rewrite (open_bytes fs ep n fi b S D O).
-             destruct (N.eqb (i_size fi) (strlen b)); [apply outcome_eqb_refl|reflexivity].
+             destruct (Z.eqb (i_size fi) (Z.of_N (strlen b))); [apply outcome_eqb_refl|reflexivity].
           -- destruct (wf_code e) eqn:W.
              ++ rewrite (open_error fs ep n fi e S D O W). reflexivity.
              ++ now destruct (client_open fs ep n).
@@ -849,11 +980,13 @@ Section LocalScope.
     destruct n as [c m|ch].
     - inversion W; subst. cbn [i_path i_mod i_size i_dir i_mime].
       rewrite (wf_path_external _ F), wf_time_of_ns by assumption. cbn [andb orb].
-      rewrite Hmime, String.eqb_refl, andb_true_r. apply N.ltb_lt. assumption.
+      rewrite Hmime, String.eqb_refl, andb_true_r. unfold big in *.
+      apply andb_true_iff. split; [apply Z.leb_le|apply Z.ltb_lt]; lia.
     - destruct (dmeta q) as [sz mt] eqn:E. pose proof (Hdm q) as [H1 H2]. rewrite E in H1, H2. cbn [fst snd] in *.
       cbn [i_path i_mod i_size i_dir i_mime].
       rewrite (wf_path_external _ F), wf_time_of_ns by assumption. cbn [andb orb].
-      rewrite andb_true_r. apply N.ltb_lt. assumption.
+      rewrite andb_true_r. unfold big in *.
+      apply andb_true_iff. split; [apply Z.leb_le|apply Z.ltb_lt]; lia.
   Qed.
 
   Lemma listing_sub recursive n e : In e (listing recursive n) -> In e (walk n []).
@@ -943,7 +1076,7 @@ Section LocalScope.
       local_segs (i_path e) = Ok q /\ geto t q = Some n /\ scope recursive segs q /\
       match n with
       | Dir _ => i_dir e = true
-      | File c m => i_dir e = false /\ i_size e = strlen c /\ i_etag e = etag_of m (strlen c) /\
+      | File c m => i_dir e = false /\ i_size e = Z.of_N (strlen c) /\ i_etag e = etag_of m (strlen c) /\
                     i_mod e = to_second (instant_of_ns m)
       end.
   Proof.
@@ -997,7 +1130,7 @@ Theorem readdir_scope X dmeta t writes ep name recursive segs ch :
          local_segs (i_path e) = Ok q /\ geto t q = Some n /\ scope recursive segs q /\
          match n with
          | Dir _ => i_dir e = true
-         | File c m => i_dir e = false /\ i_size e = strlen c /\ i_etag e = etag_of m (strlen c) /\
+         | File c m => i_dir e = false /\ i_size e = Z.of_N (strlen c) /\ i_etag e = etag_of m (strlen c) /\
                        i_mod e = to_second (instant_of_ns m)
          end) /\
     (forall q n, geto t q = Some n -> scope recursive segs q -> In (external_path q) (map i_path l)).
@@ -1110,7 +1243,7 @@ Proof.
   rewrite !andb_true_iff. repeat split.
   - apply forallb_forall. intros e He. destruct (Snd e He) as (q & n & P & _ & Ls & G & _ & K).
     unfold entry_ok. rewrite Ls, G. rewrite P at 1. rewrite String.eqb_refl. cbn [andb].
-    destruct n as [c m|ch']; [destruct K as (K1 & K2 & _); rewrite K1, K2, N.eqb_refl; reflexivity|exact K].
+    destruct n as [c m|ch']; [destruct K as (K1 & K2 & _); rewrite K1, K2, Z.eqb_refl; reflexivity|exact K].
   - apply forallb_forall. intros e He. destruct (Snd e He) as (q & n & _ & _ & Ls & _ & Sc & _).
     rewrite Ls. now apply scope_in_scope.
   - apply forallb_forall. intros q Hq. rewrite in_map_iff in Hq. destruct Hq as [rel [<- Hrel]].
@@ -1129,9 +1262,9 @@ Definition toy_ext : ext :=
      x_href_dec := fun s => Some s;
      x_quote := fun t => String """"%char t;
      x_unquote := fun s => match s with String _ r => Some r | EmptyString => None end;
-     x_time_fmt := fun t => dec (Z.to_N (t_sec t + 62167219200));
+     x_time_fmt := fun t => dec_z (t_sec t + 62167219200);
      x_time_parse := fun s => match parse_size s with
-                              | Some n => Some {| t_sec := Z.of_N n - 62167219200; t_ns := 0 |}
+                              | Some n => Some {| t_sec := n - 62167219200; t_ns := 0 |}
                               | None => None
                               end;
      x_text := fun s => s;
